@@ -1442,3 +1442,50 @@ def separator_cases():
         for ri, b in enumerate(body):
             out.append(Case("package p\n" + b + "\n", "F-separators", prog=gi, style=str(ri)))
     return out
+
+
+# ---------------------------------------------------------------- parameter lists (C03/C06): every item form in every place
+PARAM_TYPES = [("A", "(Ident s:A)"), ("*B", "(TypePointer (Ident s:B))"), ("pkg.C", "(Selector (Ident s:pkg) (Ident s:C))"),
+               ("[]D", "(TypeSlice (Ident s:D))"), ("map[K]V", "(TypeMap (Ident s:K) (Ident s:V))"),
+               ("func()", "(FuncType (FieldList) (FieldList) (FieldList))"), ("chan E", "(TypeChannel d:0 (Ident s:E))"),
+               ("[3]F", "(TypeArray (BasicLit l:N s:3) (Ident s:F))"), ("struct{}", "(TypeStruct)"), ("<-chan G", "(TypeChannel d:2 (Ident s:G))"),
+               ("interface{}", "(TypeInterface (FieldList))"), ("(H)", "(Paren (Ident s:H))")]
+PARAM_CTX = ["func f(%s) {}", "var f func(%s)", "var g = func(%s) {}", "func (r R) m(%s) {}", "func f() (%s) { return }", "type F func(%s)"]
+
+
+def param_cases():
+    """unnamed parameter lists: every pair and a sample of triples of type forms (the list parser decides after the
+    fact whether identifiers were names or types); named lists: single, grouped, variadic; in six signature places"""
+    import itertools
+    out = []
+
+    def add(src, fields, ctxs=PARAM_CTX):
+        want = "(FieldList " + " ".join(fields) + ")" if fields else "(FieldList)"
+        for ctx in ctxs:
+            out.append(Case("package p\n" + ctx % src + "\n", "F-params", expected=want, note=src))
+    un = lambda sh: "(Field (List) %s (None))" % sh
+    nm = lambda names, sh: "(Field (List %s) %s (None))" % (" ".join("(Ident s:%s)" % n for n in names), sh)
+    for n in (1, 2):
+        for combo in itertools.product(PARAM_TYPES, repeat=n):
+            add(", ".join(t for t, _ in combo), [un(sh) for _, sh in combo])
+            add(", ".join(t for t, _ in combo) + ",", [un(sh) for _, sh in combo], PARAM_CTX[:2])
+    for i, combo in enumerate(itertools.product(PARAM_TYPES, repeat=3)):
+        if i % 7 == 0:
+            add(", ".join(t for t, _ in combo), [un(sh) for _, sh in combo], PARAM_CTX[:1])
+    for t, sh in PARAM_TYPES:
+        add("a " + t, [nm(["a"], sh)])
+        add("a, b " + t, [nm(["a", "b"], sh)])
+        add("a, b " + t + ", c " + t, [nm(["a", "b"], sh), nm(["c"], sh)], PARAM_CTX[:3])
+        add("a ..." + t, [nm(["a"], "(Ellipsis %s)" % sh)], PARAM_CTX[:4] + PARAM_CTX[5:])
+        add("a int, b ..." + t, [nm(["a"], "(Ident s:int)"), nm(["b"], "(Ellipsis %s)" % sh)], PARAM_CTX[:4] + PARAM_CTX[5:])
+        add("..." + t, [un("(Ellipsis %s)" % sh)], PARAM_CTX[:4] + PARAM_CTX[5:])
+        add("A, ..." + t, [un("(Ident s:A)"), un("(Ellipsis %s)" % sh)], PARAM_CTX[:4] + PARAM_CTX[5:])
+    return out
+
+
+def oracle_params(c, line, tl=None):
+    if not line.startswith("OK "):
+        return "valid input rejected: %s" % line[:80]
+    if c.expected not in proj_shape(line):
+        return "the parameter list (%s) does not have its derivation %s" % (c.note, c.expected)
+    return None
